@@ -1,11 +1,15 @@
 import HapModel.Model.PhenoFile
 import HapModel.Model.ReplicationNamesStd
+import HapModel.Model.FloatText
 /-!
 # C15 — Phenotype/covariate files round-trip bit-exactly; table operations are exact   (PARTIAL)
 
-The round trip is proved at token level under the codec contract `parse (fmt v) = some v`; that numpy's shortest
-round-trip printing and `float64(token)` satisfy the contract for every double is checked bitwise by the harness,
-not proved (no IEEE printing/parsing formalisation is available).  Real-arithmetic facts about `standardize` are
+The round trip is proved at token level under the codec contract `parse (fmt v) = some v`.  For the float codec the
+contract is split (Model/FloatText): *every* correctly rounding reader inverts *every* writer whose tokens lie in the
+rounding interval of the value they stand for (`float_codec_contract`, from `decimal_reads_as_at_most_one_double`); that the
+tokens the real writer produced lie in those intervals is decided exactly, over the integers, for each written token by
+the driver (`FloatText.checkTok`, meaning `checked_token_reads_back_everywhere`).  That numpy's shortest printing meets the
+interval for every double, and that `float()` rounds correctly, is not proved (no formalisation of Dragon4 / strtod).  Real-arithmetic facts about `standardize` are
 `C09R.standardize_mean_zero` / `standardize_var_one` (HapReal).
 -/
 namespace C15
@@ -48,5 +52,58 @@ theorem repeated_name_made_unique (x : String) (R : Nat) : (uniqNames (List.repl
     form was already a name -/
 theorem uniqNamesOld_collision_witness : uniqNamesOld ["a", "a", "a-1"] = ["a", "a-1", "a-1"] :=
   Pheno.uniqNamesOld_collision_witness
+
+/-! ### The float codec (Model/FloatText): magnitudes in units of 2^-1074, `m * 2^s` with a 53-bit significand -/
+open FloatText in
+/-- **a decimal value is a correctly rounded (nearest, ties-to-even) reading of at most one double**: two canonical
+    doubles whose rounding intervals both hold `a / b` are the same double -/
+theorem decimal_reads_as_at_most_one_double (a b : Nat) (hb : 0 < b) (d1 d2 : Mag) (h1 : Canon d1) (h2 : Canon d2)
+    (r1 : RoundsTo a b d1) (r2 : RoundsTo a b d2) : d1 = d2 :=
+  roundsTo_unique a b hb d1 d2 h1 h2 r1 r2
+
+open FloatText in
+/-- **the float codec contract**: any writer whose token for `d` lies in the rounding interval of `d`, read by any
+    reader that returns a correctly rounded double, gives back `d` – for every double, whatever digits the writer
+    chose (shortest, 17 significant, exact) -/
+theorem float_codec_contract (print : Mag → Nat × Nat) (parse : Nat × Nat → Mag)
+    (hprint : ∀ d, Canon d → 0 < (print d).2 ∧ RoundsTo (print d).1 (print d).2 d)
+    (hparse : ∀ q : Nat × Nat, 0 < q.2 → (∃ d, Canon d ∧ RoundsTo q.1 q.2 d) →
+      Canon (parse q) ∧ RoundsTo q.1 q.2 (parse q))
+    (d : Mag) (hd : Canon d) : parse (print d) = d := by
+  obtain ⟨hb, hr⟩ := hprint d hd
+  obtain ⟨hc, hr'⟩ := hparse (print d) hb ⟨d, hd, hr⟩
+  exact roundsTo_unique _ _ hb _ _ hc hd hr' hr
+
+open FloatText in
+/-- the exact decimal expansion of a double reads back as that double: no rounding interval is empty -/
+theorem exact_value_reads_back (d : Mag) (h : Canon d) : RoundsTo d.val 1 d := roundsTo_self d h
+
+open FloatText in
+/-- what the driver's verdict `reads` on a (bits, token) pair of a written file means: the bits are a finite double,
+    the token is a decimal of the same sign inside its rounding interval, and no other double's interval holds it -/
+theorem checked_token_reads_back_everywhere (bits : Nat) (tok : String) (h : checkTok bits tok = .reads) :
+    ∃ n d t, ofBits bits = .fin n d ∧ parseTok tok = some (.dec t) ∧ n = t.neg ∧ Canon d ∧
+      RoundsTo t.frac.1 t.frac.2 d ∧ ∀ d', Canon d' → RoundsTo t.frac.1 t.frac.2 d' → d' = d :=
+  checkTok_reads bits tok h
+
+open FloatText in
+/-- bit patterns decode to canonical magnitudes (the hypothesis `Canon` above is met by every finite double) -/
+theorem bits_decode_canonical (bits : Nat) (neg : Bool) (d : Mag) (h : ofBits bits = .fin neg d) : Canon d :=
+  ofBits_canon bits neg d h
+
+/-! non-vacuity: `1e+23` is exactly half-way between two doubles and is read as the one with the even significand
+    (0x44B52D02C7E14AF6), not as its neighbour; `0.1` is read as 0x3FB999999999999A -/
+set_option exponentiation.threshold 2000 in
+open FloatText in
+example : let t : Dec := ⟨false, 1, 23⟩
+    RoundsTo t.frac.1 t.frac.2 ⟨0x152D02C7E14AF6, 0x44B - 1⟩ ∧ ¬ RoundsTo t.frac.1 t.frac.2 ⟨0x152D02C7E14AF7, 0x44B - 1⟩ := by
+  decide +kernel
+set_option exponentiation.threshold 2000 in
+open FloatText in
+example : let t : Dec := ⟨false, 1, -1⟩
+    RoundsTo t.frac.1 t.frac.2 ⟨0x1999999999999A, 0x3FB - 1⟩ ∧ Canon ⟨0x1999999999999A, 0x3FB - 1⟩ := by
+  decide +kernel
+open FloatText in
+example : ofBits 0x44B52D02C7E14AF6 = .fin false ⟨0x152D02C7E14AF6, 0x44B - 1⟩ := by decide
 
 end C15
